@@ -61,6 +61,7 @@ type RefServer struct {
 	stalled   bool        // server will never speak again
 	deaf      bool        // ... and does not read either: what the client writes piles up in the transport
 	tlsStarted bool
+	tx         int // mail transaction state for the strict default replies (see track)
 	tlsServing bool       // replies now travel inside TLS
 	tlsDone   chan struct{}
 	TLSState  *tls.ConnectionState // server side view of the established TLS connection
@@ -138,21 +139,59 @@ func (s *RefServer) respond(verb string) int {
 	case "garbage":
 		s.out.WriteString("\x16\x03\x01 this is not SMTP\r\n")
 		s.Events = append(s.Events, Event{Kind: "reply", Code: -1, Line: "garbage", Pos: s.pos - 1})
+		s.track(verb, -1)
 		return -1
 	case "reply":
 		s.sendReply(a.Code, a.Text)
+		s.track(verb, a.Code)
 		return a.Code
 	case "deaf":
 		// the well-behaved reply, then the server neither reads nor writes any more
 		code, text := s.defaultReply(verb)
 		s.sendReply(code, text)
+		s.track(verb, code)
 		s.stalled = true
 		s.deaf = true
 		return code
 	default:
 		code, text := s.defaultReply(verb)
+		// a well-behaved server is also a strict one: commands that are out of sequence are refused (RFC 5321
+		// section 4.1.4). A legal client never sees this; one that forgets an RSET does.
+		switch {
+		case verb == "MAIL" && s.tx != 0:
+			code, text = 503, "5.5.1 Error: nested MAIL command"+outOfSequence
+		case verb == "RCPT" && s.tx == 0:
+			code, text = 503, "5.5.1 Error: need MAIL command"+outOfSequence
+		case verb == "DATA" && s.tx != 2:
+			code, text = 503, "5.5.1 Error: need RCPT command"+outOfSequence
+		}
 		s.sendReply(code, text)
+		s.track(verb, code)
 		return code
+	}
+}
+
+// outOfSequence marks the replies the server gives on its own account to a command that is out of sequence
+const outOfSequence = " (out of sequence)"
+
+// track follows the mail transaction as the server sees it: 0 = none, 1 = MAIL accepted, 2 = a recipient accepted
+func (s *RefServer) track(verb string, code int) {
+	ok := code >= 200 && code < 300
+	switch verb {
+	case "EHLO", "HELO", "RSET", "STARTTLS":
+		if ok {
+			s.tx = 0
+		}
+	case "MAIL":
+		if ok {
+			s.tx = 1
+		}
+	case "RCPT":
+		if ok && s.tx >= 1 {
+			s.tx = 2
+		}
+	case "eod":
+		s.tx = 0
 	}
 }
 
